@@ -27,6 +27,7 @@ structure Cfg where
   rootGiven : Path   -- as handed to the component (trailing slash in variant `slash`)
   variant : String
   cwd : Path
+  tree : DTree := []   -- comp dsh: the DirStructure tree of this case (ChildDir calls accumulate)
 
 inductive Kind where
   | file | dir | absent | blocked
@@ -108,6 +109,22 @@ def showEnsure (c : Cfg) (r : Except Err (List Path)) : String :=
     let ds := if c.variant = "noexist" then ds else ds.filter (· ≠ c.root)
     fin s!"acc dirs {hexList ds}"
 
+def octStr (n : Nat) : String := String.ofList (Nat.toDigits 8 n)
+
+def parseOct (s : String) : Option Nat :=
+  if s.isEmpty ∨ s.length > 4 then none
+  else s.toList.foldl (fun acc c => match acc with
+    | none => none
+    | some v => if '0' ≤ c ∧ c ≤ '7' then some (v * 8 + (c.toNat - 48)) else none) (some 0)
+
+/-- Last permission handed to `EnsureDirectory` per directory, in order of first appearance. -/
+def lastPerms : List (Path × Nat) → List (Path × Nat) → List (Path × Nat)
+  | acc, [] => acc
+  | acc, (p, m) :: rest =>
+    let q := clean p
+    if acc.any (·.1 = q) then lastPerms (acc.map (fun e => if e.1 = q then (q, m) else e)) rest
+    else lastPerms (acc ++ [(q, m)]) rest
+
 def bytesLt : Path → Path → Bool
   | [], [] => false
   | [], _ :: _ => true
@@ -119,6 +136,50 @@ def insertSorted (x : Path) : List Path → List Path
   | y :: ys => if bytesLt y x then y :: insertSorted x ys else x :: y :: ys
 
 def sortPaths (xs : List Path) : List Path := xs.foldr insertSorted []
+
+/-- comp dsh: result of an `Ensure*` call on the tree — directories created (root content is emptied before every
+    call, the root itself exists with mode 755 unless variant `noexist`) with their final modes. -/
+def showEnsureT (c : Cfg) (r : Except Err (List (Path × Nat))) : String :=
+  match r with
+  | .error e => rej e
+  | .ok dirs =>
+    let ds := lastPerms [] dirs
+    let ds := if c.variant = "noexist" then ds else ds.filter (·.1 ≠ c.root)
+    let names := sortPaths (ds.map (·.1))
+    let items := names.map (fun p => toHex p ++ ":" ++ octStr ((ds.find? (·.1 = p)).map (·.2) |>.getD 0))
+    fin ("acc dirsm " ++ (if items.isEmpty then "_" else String.intercalate "," items))
+
+def underSbx (p : Path) : Bool := p = sbx || hasPrefix p (sbx ++ [47])
+
+def doDsh (c : Cfg) (f : List String) : Cfg × String :=
+  let t := c.tree
+  match f with
+  | ["chd", h, name, perm] =>
+    match h.toNat?, parseHex name, parseOct perm with
+    | some h, some name, some perm =>
+      if h < t.length then
+        let (t', idx) := childDir t h name perm
+        let p := t'.pathOf idx
+        ({ c with tree := t' }, fin s!"child {idx} {if underSbx p then toHex p else "above"}")
+      else (c, "bad-op")
+    | _, _, _ => (c, "bad-op")
+  | ["hens", h] =>
+    match h.toNat? with
+    | some h => if h < t.length then (c, showEnsureT c (ensureT t h)) else (c, "bad-op")
+    | none => (c, "bad-op")
+  | ["hena", h, p] =>
+    match h.toNat?, parseHex p with
+    | some h, some p => if h < t.length then (c, showEnsureT c (ensureAbsPathT t h p)) else (c, "bad-op")
+    | _, _ => (c, "bad-op")
+  | ["henr", h, p] =>
+    match h.toNat?, parseHex p with
+    | some h, some p => if h < t.length then (c, showEnsureT c (ensureRelPathT t h p)) else (c, "bad-op")
+    | _, _ => (c, "bad-op")
+  | ["hend", h, l] =>
+    match h.toNat?, parseHexList l with
+    | some h, some xs => if h < t.length then (c, showEnsureT c (ensureRelDirT t h xs)) else (c, "bad-op")
+    | _, _ => (c, "bad-op")
+  | _ => (c, "bad-op")
 
 /-- The unpack loop with the state of the unpack directory: (path, isDir). -/
 def unzLoop (tmp : Path) : List (Path × Bool) → List Path → String
@@ -177,18 +238,22 @@ def step (st : Option Cfg) (line : String) : Option Cfg × String :=
     match parseHex rr, parseHex cw with
     | some rr, some cw =>
       if ¬ validRel rr ∨ (cw ≠ [] ∧ ¬ validRel cw) then (st, "bad-op")
-      else if ¬ (comp = "fst" ∨ comp = "ds" ∨ comp = "upd" ∨ comp = "lib") then (st, "bad-op")
+      else if ¬ (comp = "fst" ∨ comp = "ds" ∨ comp = "dsh" ∨ comp = "upd" ∨ comp = "lib") then (st, "bad-op")
       else if ¬ (variant = "plain" ∨ variant = "slash" ∨ variant = "noexist") then (st, "bad-op")
       else
         let root := sbx ++ 47 :: rr
         let given := if variant = "slash" then root ++ [47] else root
         let cwd := if cw = [] then sbx else sbx ++ 47 :: cw
-        (some { comp, root, rootGiven := given, variant, cwd }, "ok")
+        (some { comp, root, rootGiven := given, variant, cwd, tree := newDirStructure given 0o755 }, "ok")
     | _, _ => (st, "bad-op")
   | f =>
     match st with
     | none => (st, "bad-op")
     | some c =>
+      if c.comp = "dsh" then
+        let (c', out) := doDsh c f
+        (some c', out)
+      else
       let out :=
         if c.comp = "lib" then doLib f
         else match c.comp, f with
